@@ -287,10 +287,28 @@ fn spawn_search(cfg: &Cfg, sched_seed: u64, iterations: usize, depth: usize, dir
     // The names go to the temporary directory; a memory-backed one keeps the stale-file scenarios cheap.
     let tmp = if Path::new("/dev/shm").is_dir() { PathBuf::from("/dev/shm").join(format!("sdshuttle-tmp-{}", std::process::id())) } else { dir.join("tmp") };
     let _ = std::fs::create_dir_all(&tmp);
-    let out = std::process::Command::new(exe)
+    let mut child = std::process::Command::new(exe)
         .env("TMPDIR", &tmp)
         .arg("search").arg(cfg.to_json().to_string()).arg(sched_seed.to_string()).arg(iterations.to_string()).arg(depth.to_string()).arg(dir)
-        .stderr(std::process::Stdio::null()).output().map_err(|e| e.to_string())?;
+        .stdout(std::process::Stdio::piped()).stderr(std::process::Stdio::null()).spawn().map_err(|e| e.to_string())?;
+    // Watchdog: a search that does not finish is killed (a spin that shuttle's step bound does not see).
+    let limit = std::env::var("VERIF_HANG_SECS").ok().and_then(|s| s.parse::<u64>().ok()).unwrap_or(120);
+    let started = Instant::now();
+    let mut stdout = child.stdout.take().unwrap();
+    let reader = std::thread::spawn(move || { let mut buf = Vec::new(); let _ = std::io::Read::read_to_end(&mut stdout, &mut buf); buf });
+    let status = loop {
+        match child.try_wait() {
+            Ok(Some(st)) => break st,
+            Ok(None) => {
+                if started.elapsed().as_secs() > limit + (iterations as u64) / 50 { let _ = child.kill(); let _ = child.wait(); let _ = reader.join(); return Ok(json!({"ok": false, "executions": 0, "steps": 0, "sigs": [], "schedule": "", "hang": true})); }
+                std::thread::sleep(std::time::Duration::from_millis(2));
+            },
+            Err(e) => return Err(e.to_string()),
+        }
+    };
+    let out_bytes = reader.join().unwrap_or_default();
+    struct Out { stdout: Vec<u8>, status: std::process::ExitStatus }
+    let out = Out { stdout: out_bytes, status };
     let text = String::from_utf8_lossy(&out.stdout);
     let line = text.lines().last().unwrap_or("");
     serde_json::from_str::<Value>(line).map_err(|e| format!("child gave no result ({}); status {:?}", e, out.status))
@@ -299,7 +317,7 @@ fn spawn_search(cfg: &Cfg, sched_seed: u64, iterations: usize, depth: usize, dir
 fn run(args: &Args) -> i32 {
     let thorough = args.tier == "thorough";
     // (configurations, schedules per configuration)
-    let (configs, iters): (u64, usize) = if thorough { (args.count.unwrap_or(40_000), 500) } else { (args.count.unwrap_or(3000), 100) };
+    let (configs, iters): (u64, usize) = if thorough { (args.count.unwrap_or(25_000), 500) } else { (args.count.unwrap_or(3000), 100) };
     println!("sdshuttle: property={} tier={} VERIF_SEED={} configurations={} schedules_each={} jobs={}", PROP, args.tier, args.seed, configs, iters, args.jobs);
     let start = Instant::now();
     let base = scratch_root().join(format!("shuttle-{}", std::process::id()));
